@@ -13,6 +13,9 @@ run-time invariants). Four clauses are shape, each a defect class the property t
          changes when it is mutated, so a key that was inserted need not be found again.
   C04.H  (= C14.B, shared) every store that raises a stack's height is guarded by a comparison with the capacity: exhaustion
          surfaces as the stack-full error the handlers map (C04.S), never as an out-of-bounds panic.
+  C04.U  counts read from program text are subtracted with a check: the number of leading `super.` components of an import
+         (compiler::super_depth) is never the right operand of a plain `-` (usize underflow panics in every build profile
+         that has overflow checks, wraps otherwise and then over-allocates / mis-slices).
   C04.S  exhausting the value stack or call stack is mapped to the corresponding error, never unwrapped, in the VM's
          instruction handlers.
 """
@@ -250,6 +253,65 @@ def rule_k(F):
     return res
 
 
+def rule_u(F):
+    from cao.facts import DefUse, op_place, rvalue_operands
+    res = []
+    n = 0
+    for f in F.fns:
+        if not f.mir:
+            continue
+        srcs = [t["dest"]["l"] for bi, t in mu.calls(f) if any(n_ == "compiler::super_depth" for n_ in callee_names(t["func"]))]
+        if not srcs:
+            continue
+        du = DefUse(f)
+
+        def from_src(op):
+            p = op_place(op)
+            seen = set()
+            work = [p["l"]] if p is not None else []
+            while work:
+                l = work.pop()
+                if l in seen:
+                    continue
+                seen.add(l)
+                if l in srcs:
+                    return True
+                for d in du.defs.get(l, []):
+                    if d[3].get("place", d[3].get("dest"))["p"]:
+                        continue
+                    if d[2] == "assign":
+                        for o in rvalue_operands(d[3]["rv"]):
+                            q = op_place(o)
+                            if q is not None:
+                                work.append(q["l"])
+                        if d[3]["rv"]["k"] in ("ref",):
+                            work.append(d[3]["rv"]["place"]["l"])
+            return False
+        owner = (f.root or f.short).rsplit("::", 1)[-1]
+        plain = []
+        checked = 0
+        for bi, b in enumerate(f.blocks):
+            for st in b["stmts"]:
+                if st["k"] == "assign" and st["rv"]["k"] == "bin" and st["rv"]["op"] in ("Sub", "SubWithOverflow", "SubUnchecked") and from_src(st["rv"]["r"]):
+                    plain.append(st.get("ln"))
+            t = b["term"]
+            if t["k"] == "call" and any(n_.rsplit("::", 1)[-1] in ("checked_sub", "saturating_sub") for n_ in callee_names(t["func"])) \
+                    and len(t["args"]) > 1 and from_src(t["args"][1]):
+                checked += 1
+        n += 1
+        key = "C04/U/%s/super-depth-subtracted-checked" % owner
+        if plain:
+            res.append(bad("C04.U", key, f.loc(plain[0]),
+                           "%s subtracts the number of `super.` components of an import from a length with a plain `-`: an import with "
+                           "more `super.` than the namespace is deep makes the compiler panic instead of returning an error" % owner))
+        else:
+            res.append(ok("C04.U", key, f.loc(), "super depth only enters checked/saturating subtractions (%d)" % checked))
+    if n < 1:
+        from cao.facts import AnchorMissing
+        raise AnchorMissing("uses of compiler::super_depth")
+    return res
+
+
 def rule_s(F):
     """In instruction handlers (vm::instr_execution::*, Vm::_run, Vm::binary_op): results of ValueStack::push /
     BoundedStack::push / Vm::stack_push are never unwrapped/expected (which would turn exhaustion into a panic)."""
@@ -324,6 +386,7 @@ RULES = [
     Rule("C04.G", rule_g, 3, "insertion paths keep a free slot (C12.G/C13.G): probes terminate"),
     Rule("C04.R", rule_r, 1, "recursion over script data is bounded"),
     Rule("C04.K", rule_k, 8, "lookups keyed by script values are not assumed to succeed"),
+    Rule("C04.U", rule_u, 1, "counts read from program text are subtracted with a check"),
     Rule("C04.H", shared(_c14.rule_b, "C14.B", "C04.H"), 14, "height-raising stores are guarded (shared with C14.B)"),
     Rule("C04.S", rule_s, 20, "stack exhaustion is an error value in instruction handlers"),
 ]
